@@ -24,6 +24,7 @@
   Random draws, scrambled values, drawn indices and the argsort permutation are inputs of the model.
 -/
 import SkyllhModel.Model.Store
+import SkyllhModel.Scalar
 
 namespace Pseudo
 open Store
@@ -185,6 +186,18 @@ def HandlesOK (r : Roles) : GOp → Prop
   | _ => True
 
 /-! ### right ascension of the scrambled events (scalar-polymorphic) -/
+
+/-! ### how many events are drawn (scalar-polymorphic) -/
+
+/-- `MCDataSamplingBkgGenMethod.generate_events`: `n_bkg` events are expected for the whole MC (Poisson draw or the rounded
+mean); from the (pre-selected) MC sample `around(n_bkg * mean_pre_selected / mean)` events are drawn, where
+`mean_pre_selected = mean` when there is no pre-selection.  This is the value before rounding, in the code's order of operations. -/
+def nBkgRaw {F : Type} [Mul F] [Div F] [Transc F] (nBkg : Nat) (meanSel mean : F) : F :=
+  Transc.ofN nBkg * meanSel / mean
+
+/-- the number of drawn events for IEEE doubles (`np.around(x, 0)` = round half to even) -/
+def nBkgSelected (nBkg : Nat) (meanSel mean : Float) : Nat :=
+  (FloatImpl.rint (nBkgRaw nBkg meanSel mean)).toUInt64.toNat
 
 /-- `RandomState.uniform(lo, hi)` = `lo + (hi - lo) * u` with `u` in `[0, 1)` -/
 def uniformRA {F : Type} [Add F] [Sub F] [Mul F] (lo hi u : F) : F := lo + (hi - lo) * u
